@@ -124,7 +124,7 @@ theorem decode_incomplete (cfg : Cfg) (cksum : Bytes → Bytes) :
     have h2 : (h ++ tail).take headerLen = h := List.take_left' hl
     have h3 : (h ++ tail).drop headerLen = tail := List.drop_left' hl
     rw [decode_eq, step]
-    simp [h1, h2, h3, hp, ht]
+    simp only [h1, ↓reduceIte, h2, h3, hp, ht]
 
 /-! ## 3. Round trip -/
 
@@ -364,6 +364,53 @@ theorem payload_corruption_local (cfg : Cfg) (cksum : Bytes → Bytes) (hm : cfg
   rw [e] at hparse
   exact decode_accepted_header cfg cksum hdr p' rest _ _ _ hl hparse hlen
 
+/-- a header assembled from any four fields of the right widths, followed by the declared
+    number of bytes -/
+theorem decode_assembled (cfg : Cfg) (cksum : Bytes → Bytes) (hm : cfg.magic.length = 4)
+    (c l k body rest : Bytes) (hc : c.length = 12) (hl : l.length = 4) (hk4 : k.length = 4)
+    (hb : body.length = unle l) (hs : oversized cfg (rstripNul c) (unle l) = false) :
+    decode cfg cksum (cfg.magic ++ (c ++ (l ++ k)) ++ (body ++ rest)) =
+      (if cksum body = k then Out.msg (rstripNul c) body else Out.err .badChecksum) ::
+        decode cfg cksum rest := by
+  obtain ⟨f1, f2, f3, f4, f5⟩ := fields_of_parts cfg.magic c l k hm hc hl hk4
+  have hp : parseHeader cfg (cfg.magic ++ (c ++ (l ++ k))) = .ok (rstripNul c, unle l, k) := by
+    rw [parseHeader_ok_iff]
+    exact ⟨f1, by rw [f2], f3.symm, f4.symm, hs⟩
+  exact decode_accepted_header cfg cksum _ body rest _ _ _ f5 hp hb
+
+/-- corruption of the checksum field of a framed message (any 4 bytes `k` in its place):
+    delivered iff `k` is still the payload's checksum, otherwise one `BadChecksumError`; the
+    following frames are decoded unchanged either way -/
+theorem checksum_field_corruption_local (cfg : Cfg) (cksum : Bytes → Bytes)
+    (hm : cfg.magic.length = 4) (m : Bytes × Bytes) (hs : Sendable cfg m) (k rest : Bytes)
+    (hk4 : k.length = 4) :
+    decode cfg cksum (cfg.magic ++ (m.1 ++ List.replicate (12 - m.1.length) 0 ++
+        (le32 m.2.length ++ k)) ++ (m.2 ++ rest)) =
+      (if cksum m.2 = k then Out.msg m.1 m.2 else Out.err .badChecksum) ::
+        decode cfg cksum rest := by
+  have e : rstripNul (m.1 ++ List.replicate (12 - m.1.length) 0) = m.1 := by
+    rw [rstripNul_append_zeros, rstripNul_of_noTrail _ hs.noNul]
+  have hcl : (m.1 ++ List.replicate (12 - m.1.length) 0).length = 12 := by
+    have := hs.cmdLen
+    simp; omega
+  have hu := unle_le32 _ hs.lenPack
+  have := decode_assembled cfg cksum hm _ (le32 m.2.length) k m.2 rest hcl rfl hk4
+    (by rw [hu]) (by rw [e, hu]; exact (block_exception cfg _ _).2 hs.within)
+  rw [e] at this
+  exact this
+
+/-- what `never_corrupt` does **not** give: the checksum covers the payload only.  Whatever 12
+    bytes stand in the command field, the payload is delivered under that (stripped) command -/
+theorem command_field_unprotected (cfg : Cfg) (cksum : Bytes → Bytes) (hm : cfg.magic.length = 4)
+    (hk : CkLaw cksum) (c p rest : Bytes) (hc : c.length = 12) (hp : p.length < 4294967296)
+    (hs : oversized cfg (rstripNul c) p.length = false) :
+    decode cfg cksum (cfg.magic ++ (c ++ (le32 p.length ++ cksum p)) ++ (p ++ rest)) =
+      .msg (rstripNul c) p :: decode cfg cksum rest := by
+  have hu := unle_le32 _ hp
+  have := decode_assembled cfg cksum hm c (le32 p.length) (cksum p) p rest hc rfl (hk p)
+    (by rw [hu]) (by rw [hu]; exact hs)
+  simpa using this
+
 /-- **magic_size_no_delivery**: wrong magic, or right magic with an over-limit length: one
     error (of the corresponding class, magic tested first), nothing delivered for that header,
     exactly 24 bytes consumed -/
@@ -471,8 +518,8 @@ theorem sessRun_spec (outs : List Out) : ∀ s : Sess, s.closed = false →
       simp only [sessRun, upToFatal, fatal, Bool.false_eq_true, ↓reduceIte, List.any_cons,
         Bool.false_or]
       refine ⟨?_, b, ?_⟩
-      · rw [a]; simp [List.filter_cons, isErr]
-      · rw [c']; simp [List.filterMap_cons, msgOf]
+      · rw [a]; simp [isErr]
+      · rw [c']; simp [msgOf]
     | err e =>
       cases e with
       | badChecksum =>
